@@ -341,7 +341,8 @@ class C27(core.Check):
     engine = 'H'
     quick_runs = 20000
     thorough_budget_s = 900
-    chunk = 250
+    chunk = 50
+    history_dependent = True     # unique_cache and the modules' type caches outlive a run
     crash_clause = 'C27.1'
     env = {'MALLOC_PERTURB_': '221', 'PYTHONMALLOC': 'malloc'}
     rule = ('one run = a seeded history of up to 60 operations (build a derived type from a type string through '
